@@ -309,12 +309,10 @@ fn parse_pkg_dep_line(pkg_dep_line: &str) -> anyhow::Result<ParsedPkgLine> {
         true => {
             // If we have the open bracket, grab everything until the closing bracket.
             let s = &s["(".len()..];
-            let mut iter = s.split(')');
-            let dep_name = iter
-                .next()
-                .ok_or_else(|| anyhow!("missing closing parenthesis"))?;
             // The rest is the unique package string and possibly the salt.
-            let s = &s[dep_name.len() + ")".len()..];
+            let (dep_name, s) = s
+                .split_once(')')
+                .ok_or_else(|| anyhow!("missing closing parenthesis"))?;
             (Some(dep_name), s)
         }
     };
@@ -325,7 +323,14 @@ fn parse_pkg_dep_line(pkg_dep_line: &str) -> anyhow::Result<ParsedPkgLine> {
         .next()
         .ok_or_else(|| anyhow!("missing pkg string"))?
         .trim();
-    let salt_str = iter.next().map(|s| s.trim()).map(|s| &s[..s.len() - 1]);
+    let salt_str = iter
+        .next()
+        .map(|s| {
+            s.trim()
+                .strip_suffix(')')
+                .ok_or_else(|| anyhow!("missing closing parenthesis after salt"))
+        })
+        .transpose()?;
     let salt = match salt_str {
         Some(salt_str) => Some(
             fuel_tx::Salt::from_str(salt_str)
